@@ -19,23 +19,25 @@ definition.
   stand for the same concrete member; every abstract member stands for one).
 * Marks are not part of the relation (they are property C04's subject): both
   sides are compared with every marker removed.
+* Known numbers: a RESULT admits a result when the two numbers have the same exact
+  value (`Covers`: `Num.cmp = 0`; precision and the sign of zero are not part of a
+  number's value).  A weakened OPERAND keeps the known numbers of the operand it
+  weakens as they are (`CoversX`: the identical `big.Float`), because the result
+  of cty arithmetic depends on the precision of its operands.
 
 `Weaken o w` is the inductive relation of the C01 quantifier: `w` arises from `o`
 by replacing any subset of sub-values, at any depth, by unknowns that are true of
 what they replace (`Rfn.TrueOf`), or the whole operand by `cty.DynamicVal`.
-`weaken_covers : Weaken o w → Covers w o` is proved in Lemmas/CoversWeaken.lean.
+`weaken_covers : Weaken o w → CoversX w o` is proved in Lemmas/CoversWeaken.lean.
 -/
 import CtyModel.Ops2
 import CtyModel.TySpec
 namespace CtyModel
 
-namespace Num
-/-- two known numbers are the same number: equal in exact value (`big.Float.Cmp`)
-and equal for cty itself (`rawNumberEqual`, which looks at the shortest decimal
-text of non-integers and therefore at their precision).  An equivalence relation
-that every operation method respects as far as its result is a number's value. -/
-def same (x y : Num) : Bool := Num.cmp x y == 0 && Num.rawEqual x y
-end Num
+namespace Cov
+/-- two known numbers are the same: identical (`exact`), or equal in exact value -/
+def numEq (exact : Bool) (x y : Num) : Bool := if exact then decide (x = y) else Num.cmp x y == 0
+end Cov
 
 namespace Cov
 
@@ -111,7 +113,7 @@ def admits (r : Rfn) (c : Payload) : Bool :=
     if rc.nullness == .t then r.nullness != .f
     else if r.nullness == .t then false
     else (r.nullness == .u || rc.nullness == .f) && rfnInside r rc
-  | .marked _ _ | .bad _ => false
+  | .marked _ _ => false
   | p => r.nullness != .t && rfnAdmitsKnown r p
 
 /-- try every way of taking one member `c` out of a list: `p c rest` -/
@@ -120,36 +122,43 @@ def anySplit (p : Payload → List Payload → Bool) : List Payload → List Pay
   | l, c :: r => p c (l.reverse ++ r) || anySplit p (c :: l) r
 
 mutual
-/-- `coversP a c` on mark-free payloads (types are compared once, at the top) -/
-def coversP : Payload → Payload → Bool
+/-- `coversP exact a c` on mark-free payloads (types are compared once, at the top) -/
+def coversP (exact : Bool) : Payload → Payload → Bool
   | .unk r, c => admits r c
   | .null, c => (match c with | .null => true | _ => false)
   | .b x, c => (match c with | .b y => x == y | _ => false)
-  | .n x, c => (match c with | .n y => Num.same x y | _ => false)
+  | .n x, c => (match c with | .n y => numEq exact x y | _ => false)
   | .s x, c => (match c with | .s y => x == y | _ => false)
   | .caps, c => (match c with | .caps => true | _ => false)
-  | .seq as, c => (match c with | .seq cs => coversL as cs | _ => false)
-  | .smap ks as, c => (match c with | .smap ks' cs => ks == ks' && coversL as cs | _ => false)
-  | .sset _ as, c => (match c with | .sset _ cs => coversS as cs | _ => false)
-  | .marked _ a, c => coversP a c
+  | .seq as, c => (match c with | .seq cs => coversL exact as cs | _ => false)
+  | .smap ks as, c => (match c with | .smap ks' cs => ks == ks' && coversL exact as cs | _ => false)
+  | .sset _ as, c => (match c with | .sset _ cs => coversS exact as cs | _ => false)
+  | .marked _ a, c => coversP exact a c
   | .bad _, _ => false
 /-- pairwise, same length -/
-def coversL : List Payload → List Payload → Bool
+def coversL (exact : Bool) : List Payload → List Payload → Bool
   | [], cs => cs.isEmpty
-  | a :: as, cs => (match cs with | c :: cs => coversP a c && coversL as cs | [] => false)
+  | a :: as, cs => (match cs with | c :: cs => coversP exact a c && coversL exact as cs | [] => false)
 /-- set members: a surjection from the abstract members onto the concrete members
 along `coversP` (the abstract member `a` stands for some `c`; `c` is then either
 used up or left for further abstract members that coalesce with `a`) -/
-def coversS : List Payload → List Payload → Bool
+def coversS (exact : Bool) : List Payload → List Payload → Bool
   | [], cs => cs.isEmpty
-  | a :: as, cs => anySplit (fun c rest => coversP a c && (coversS as rest || coversS as cs)) [] cs
+  | a :: as, cs =>
+    anySplit (fun c rest => coversP exact a c && (coversS exact as rest || coversS exact as cs)) [] cs
 end
 
 end Cov
 
+def CoversG (exact : Bool) (a c : Value) : Bool :=
+  Ty.matches a.ty c.ty && Cov.coversP exact a.v.stripMarks c.v.stripMarks
+
 /-- `Covers a c`: the abstract value `a` admits `c` -/
-def Covers (a c : Value) : Bool :=
-  Ty.matches a.ty c.ty && Cov.coversP a.v.stripMarks c.v.stripMarks
+def Covers (a c : Value) : Bool := CoversG false a c
+
+/-- `CoversX w o`: `w` admits `o` and every known number of `w` is the number of `o`
+itself — the relation between a weakened operand and the operand it weakens -/
+def CoversX (w o : Value) : Bool := CoversG true w o
 
 /-! ## The quantifier of C01: weakenings -/
 
@@ -209,7 +218,9 @@ inductive Weaken : Value → Value → Prop
 /-! ## Soundness of an operation = monotonicity w.r.t. `Covers`
 
 The operands `o` of the property's quantifier are concrete (wholly known) values;
-`w` ranges over everything that covers them. -/
+`w` ranges over everything that covers them exactly (`CoversX`), which includes
+every weakening (`weaken_covers`); the weakened result must admit (`Covers`) the
+concrete result. -/
 
 /-- at most one marker layer at the top of the value — the representation
 invariant of cty marks (`Value.Mark`/`WithMarks` merge into an existing marker,
@@ -217,13 +228,13 @@ a `marker` never wraps a `marker`) -/
 def Value.flatMarks (v : Value) : Bool := !v.unmark.isMarked
 
 def Sound₁ (op : Value → Res Value) : Prop :=
-  ∀ o w r, o.whollyKnown = true → o.flatMarks = true → w.flatMarks = true → Covers w o = true → op o = .ok r →
+  ∀ o w r, o.whollyKnown = true → o.flatMarks = true → w.flatMarks = true → CoversX w o = true → op o = .ok r →
     ∃ r', op w = .ok r' ∧ Covers r' r = true
 
 def Sound₂ (op : Value → Value → Res Value) : Prop :=
   ∀ o₁ o₂ w₁ w₂ r, o₁.whollyKnown = true → o₂.whollyKnown = true →
     o₁.flatMarks = true → o₂.flatMarks = true → w₁.flatMarks = true → w₂.flatMarks = true →
-    Covers w₁ o₁ = true → Covers w₂ o₂ = true → op o₁ o₂ = .ok r →
+    CoversX w₁ o₁ = true → CoversX w₂ o₂ = true → op o₁ o₂ = .ok r →
     ∃ r', op w₁ w₂ = .ok r' ∧ Covers r' r = true
 
 /-- the same, over the weakenings of the property's quantifier only (implied by
@@ -248,7 +259,7 @@ inductive Verdict where
 
 def coversAll : List Value → List Value → Bool
   | [], [] => true
-  | w :: ws, o :: os => Covers w o && coversAll ws os
+  | w :: ws, o :: os => CoversX w o && coversAll ws os
   | _, _ => false
 
 /-- C01's soundness clause on one paired run: operands `os`, weakened operands
